@@ -24,6 +24,22 @@ func (x *c20SX) rangeStmt(s *ast.RangeStmt, st *c20St) []*c20St {
 			out = append(out, r.st)
 			continue
 		}
+		if r.v.k == c20kAgg {
+			a := r.v
+			out = append(out, x.unroll(s, s.Body, a, r.st, func(i int, c *c20St) {
+				k := c20V{k: c20kInt, n: int64(i)}
+				if a.b {
+					k = a.keys[i]
+				}
+				if s.Key != nil {
+					x.assign(s.Key, k, c)
+				}
+				if s.Value != nil {
+					x.assign(s.Value, a.vs[i], c)
+				}
+			})...)
+			continue
+		}
 		out = append(out, x.loopOver(s, s.Body, s.Key, s.Value, nil, r.v, r.st)...)
 	}
 	return out
@@ -51,6 +67,18 @@ func (x *c20SX) indexLoop(s *ast.ForStmt, st *c20St) ([]*c20St, bool) {
 		return nil, false
 	}
 	var out []*c20St
+	// `i < len(table)`: the index form of a loop over a constant table
+	if X := lenCallArg(x.info, cond.Y); X != nil {
+		if _, isMap := x.info.TypeOf(X).Underlying().(*types.Map); !isMap {
+			evs := x.ev(X, st)
+			if len(evs) == 1 && evs[0].st.ctl == c20cRun && evs[0].v.k == c20kAgg {
+				return x.unroll(s, s.Body, evs[0].v, evs[0].st, func(n int, c *c20St) {
+					x.born(i)
+					c.env[i] = c20V{k: c20kInt, n: int64(n)}
+				}), true
+			}
+		}
+	}
 	// the bound is the length of an input slice: `i < len(ids)`, or `i < n` where n holds such a length
 	// (a local, or the parameter of an inlined helper that was passed len(ids))
 	for _, r := range x.ev(cond.Y, st) {
